@@ -11,5 +11,5 @@ PROP = dict(
                  'error-message formatting (kfmt.Fprintf to the error writer) is not modelled'],
         assumptions=['header.Length equals the length of the byte string presented (C14 validates tables before they reach the parser)',
                      'table length < 2^32'],
-        level_text='TODO', level_note='TODO',
+        level_text='partial (work in progress)', level_note='work in progress',
 )
